@@ -103,3 +103,38 @@ End Recv.
    in order, in whatever pieces the socket accepts.  [send_stream] is the byte stream a list of payloads becomes. *)
 Definition send_frame (p : bytes) : bytes := MAGIC ++ be_enc 4 (N.of_nat (length p)) ++ p.
 Definition send_stream (ps : list bytes) : bytes := concat (map send_frame ps).
+
+(* the sender's state machine: send_buffer, send_backlog, whether the socket is registered for writability
+   (start_sending / stop_sending), and the bytes the socket has taken so far.  One [OCanSend n] is ONE sock.send()
+   call that accepts min n |buffer| bytes; the immediate recursion of handle_can_send after a refill is the next
+   [OCanSend] of the trace. *)
+Record sstate := mkS { s_buf : bytes; s_backlog : list bytes; s_writing : bool; s_written : bytes }.
+Definition s_init : sstate := mkS [] [] false [].
+Inductive sop := OSend (p : bytes) | OCanSend (n : nat).
+
+Definition s_send (st : sstate) (p : bytes) : sstate :=
+  let bl := s_backlog st ++ [send_frame p] in
+  match s_buf st with
+  | [] => match bl with
+          | x :: rest => mkS x rest true (s_written st)
+          | [] => st
+          end
+  | _ :: _ => mkS (s_buf st) bl (s_writing st) (s_written st)
+  end.
+
+Definition s_can_send (st : sstate) (n : nat) : sstate :=
+  let k := Nat.min n (length (s_buf st)) in
+  let w := s_written st ++ firstn k (s_buf st) in
+  match skipn k (s_buf st) with
+  | [] => match s_backlog st with
+          | [] => mkS [] [] false w
+          | x :: rest => mkS x rest (s_writing st) w
+          end
+  | b => mkS b (s_backlog st) (s_writing st) w
+  end.
+
+Definition s_step (st : sstate) (o : sop) : sstate :=
+  match o with OSend p => s_send st p | OCanSend n => s_can_send st n end.
+Definition s_run (ops : list sop) : sstate := fold_left s_step ops s_init.
+Fixpoint sent_of (ops : list sop) : list bytes :=
+  match ops with [] => [] | OSend p :: r => p :: sent_of r | OCanSend _ :: r => sent_of r end.
